@@ -581,6 +581,43 @@ def r3_r4_from_angles(ck, prog, run):
                 found=(f"shape {buf.payload['shape']}, fields {buf.payload['fields']}" if buf is not None else repr(res))[:200], nontrivial=True)
         n_st += 1
     run.floor("R3", "result-storage cases decided", n_st, 4)
+    # R4 flag of the result: real/imaginary is a property of the RESULT (i^a * i^b), also when the result is written into a Phase the
+    # caller supplies (in-place operators, out=) whose own flag was the other one
+    n_fl = 0
+    for a in (False, True):
+        for b in (False, True):
+            for given in (None, False, True):
+                pe, pdt = val(P1, a)
+                p2e, _ = val(P2, a)
+                fe, fdt = val(Fv, b)
+                ph1 = Num(pe * CYCLE, kind="quantity", unit=CYCLE, dtype=ExtV(pdt))
+                ph2 = Num(p2e * CYCLE, kind="quantity", unit=CYCLE, dtype=ExtV(pdt))
+                fv = Num(fe, dtype=ExtV(fdt))
+                tag = f"from_angles({'imaginary' if a else 'real'} phase, factor={'imaginary' if b else 'real'}, out={'None' if given is None else ('an imaginary Phase' if given else 'a real Phase')})"
+
+                def ov_df2(ev, a_, kw, node, fr, fn):
+                    return TupleV([Num(sp.Symbol("COUNT", real=True)), Num(sp.Symbol("FRACTION", real=True))])
+                ev = phase_evaluator(prog, PhaseLog(), capture_day_frac=True)
+                ev.overrides[PH + "day_frac"] = ov_df2
+                kw = {"factor": fv}
+                target = None
+                if given is not None:
+                    target = make_phase(prog, "o", given)
+                    kw["out"] = target
+                try:
+                    res = ev.call(fa, [ph1, ph2], kw, cls_val=cls)
+                except Raised as e:
+                    ck.same("R4", fa.where, tag, "a purely real/imaginary combination is accepted", False, found=str(e)[:160], nontrivial=True)
+                    continue
+                except (Unsupported, DimensionError) as e:
+                    ck.unk("R4", fa.where, tag, "evaluates to the stored result", str(e)[:200])
+                    continue
+                n_fl += 1
+                flag = res.attrs.get("imaginary") if isinstance(res, ObjV) else None
+                ok = isinstance(flag, BoolV) and flag.b == (a != b) and (target is None or res is target)
+                ck.same("R4", fa.where, tag, "the result carries the flag of i^a * i^b, and a supplied output object is the one that is returned and re-flagged",
+                        ok, found=f"flag {flag!r}" + ("" if target is None or res is target else "; another object returned"), nontrivial=True)
+    run.floor("R4", "result-flag cases decided", n_fl, 12)
     # mixed parts are refused
     try:
         capture([Num(P1 * CYCLE, kind="quantity", unit=CYCLE, dtype=ExtV("numpy.float64")),
